@@ -137,6 +137,7 @@ _GLOBALS_SNAPSHOT = None
 def _gambit_globals():
 	import sys
 	import types
+	import threading as _threading
 	for name, mod in list(sys.modules.items()):
 		if not (name == 'gambit' or name.startswith('gambit.')) or mod is None:
 			continue
@@ -144,6 +145,8 @@ def _gambit_globals():
 			if attr.startswith('__'):
 				continue
 			if isinstance(val, (dict, list, set)) and not isinstance(val, types.ModuleType):
+				yield name, attr, val
+			elif isinstance(val, _threading.local):
 				yield name, attr, val
 			elif hasattr(val, 'cache_clear') and callable(getattr(val, 'cache_clear', None)):
 				yield name, attr, val
@@ -158,12 +161,15 @@ def reset_gambit_globals():
 	if _GLOBALS_SNAPSHOT is None:
 		_GLOBALS_SNAPSHOT = {}
 		for mod, attr, val in _gambit_globals():
-			if not hasattr(val, 'cache_clear'):
+			if isinstance(val, (dict, list, set)):
 				_GLOBALS_SNAPSHOT[(mod, attr)] = copy.copy(val)
 		return
 	for mod, attr, val in _gambit_globals():
 		if hasattr(val, 'cache_clear'):
 			val.cache_clear()
+			continue
+		if not isinstance(val, (dict, list, set)):
+			val.__dict__.clear()          # threading.local: the calling thread's slots
 			continue
 		snap = _GLOBALS_SNAPSHOT.get((mod, attr))
 		if snap is None:
